@@ -83,7 +83,7 @@ func init() {
 		Assumptions: append([]string{"values are unmarshalled into fresh objects (UnmarshalBinary appends to existing SPS/PPS/NALU lists)", "nal_ref_idc < 4, nal_unit_type < 32 (the fields' widths)"}, commonAssumptions...),
 		Harnesses: []harnessSpec{
 			{Pkg: "avc", Func: "HarnessC12_NALU", Labels: []string{"nalu"}, Bound: "all 256 header bytes (symbolic), payload 0-3 symbolic bytes", BoundT: "payload also 254/255/256/65534 bytes (2 symbolic positions)"},
-			{Pkg: "avc", Func: "HarnessC12_Record", Labels: []string{"record"}, Bound: "profile/compat/level 8 symbolic bits each, lengthSizeMinusOne 0..3 symbolic, 0-2 SPS and 0-2 PPS with symbolic headers and 0-2 symbolic payload bytes", BoundT: "also 31 SPS + 255 PPS of one symbolic byte each"},
+			{Pkg: "avc", Func: "HarnessC12_Record", Labels: []string{"record"}, Bound: "profile/compat/level 8 symbolic bits each, lengthSizeMinusOne 0..3 symbolic, 0-2 SPS and 0-2 PPS with symbolic headers and 0-2 symbolic payload bytes, plus 17 SPS + 3 PPS of one symbolic byte each", BoundT: "counts case is 31 SPS + 255 PPS of one symbolic byte each"},
 			{Pkg: "avc", Func: "HarnessC12_Sample", Labels: []string{"sample"}, Bound: "NAL length size 1..4, 0-3 NAL units with symbolic headers and 0-2 payload bytes", BoundT: "first NAL unit also at sizes 253-256, 65533-65536 where the length size allows"},
 		},
 	})
